@@ -95,8 +95,8 @@ def generate(tier, seed):
         lines.append(ev + req)
         expect[len(lines) - 1] = (name, n, exp)
         lines.append("NEW")          # drop the context (and the list) before the next case
-    for n in [0, 1, 300] + nlin:
-        lines += ["NEW", "API bigiter %d" % n]
+    for n in [0, 1, 300, 6000] + ([] if tier == "quick" else [20000]):
+        lines += ["NEW", "API bigiter %d 64" % n]          # on a 64 KiB thread stack
         expect[len(lines) - 1] = ("collect-from-iterator", n, "BIG %d %d %s %d" % (n, n * (n - 1) // 2, "nil" if n == 0 else str(n - 1), n))
         lines.append("NEW")
     return {"lines": lines, "meta": {"expect": expect}, "distribution": {"runs": len(plan), "sizes": nlin + nquad}}
